@@ -297,10 +297,41 @@ def run(ctx):
                     break
             if good:
                 break
+        def _depends_on_selection() -> bool:
+            """Some condition on the way to this selection is computed (through local assignments) from the already selected points."""
+            deps_: dict = {}
+            for n_ in ast.walk(main):
+                tg_, val_ = None, None
+                if isinstance(n_, ast.Assign):
+                    tg_, val_ = n_.targets, n_.value
+                elif isinstance(n_, ast.AugAssign):
+                    tg_, val_ = [n_.target], n_.value
+                if tg_ is None:
+                    continue
+                for t0 in tg_:
+                    b0 = t0
+                    while isinstance(b0, (ast.Subscript, ast.Attribute)):
+                        b0 = b0.value
+                    if isinstance(b0, ast.Name):
+                        deps_.setdefault(b0.id, set()).update(x.id for x in ast.walk(val_) if isinstance(x, ast.Name))
+            seen_, todo_ = set(), [x.id for t_, _p in tests for x in ast.walk(t_) if isinstance(x, ast.Name)]
+            while todo_:
+                c_ = todo_.pop()
+                if c_ in seen_:
+                    continue
+                seen_.add(c_)
+                if c_ == sel_name:
+                    return True
+                todo_.extend(deps_.get(c_, ()))
+            return False
+        direct = any(sel_name in {n.id for n in ast.walk(t_) if isinstance(n, ast.Name)} for t_, _p in tests)
         if good:
             sel_ok += 1
             res.ok("Z2", f"zmethod.getPoints:select#{sel_ok}", "selected only if |by - y| >= H for every selected y")
-        elif not any(sel_name in {n.id for n in ast.walk(t_) if isinstance(n, ast.Name)} for t_, _p in tests):
+        elif not direct and _depends_on_selection():
+            raise AnalysisError("zmethod.getPoints: a selection is guarded by a condition derived from the already selected points in a form the height-test rule does not read "
+                                f"({' and '.join(ast.unparse(t_)[:40] for t_, _p in tests)[:160]}) - shape not recognised")
+        elif not direct:
             res.violation("Z2", mod, fi.name, b, "a candidate is added to the selection without the height test against the already selected knees",
                           ast.unparse(b)[:120], "if all(abs(best.y - y_i) >= H for y_i in <selected>[:, 1]): <select>", construct="unguarded selection")
         else:
